@@ -31,3 +31,12 @@ func vSortedWant(els []int) []string {
 	}
 	return out // els ascending and vEl is order preserving for 0..99
 }
+
+// vScribble overwrites the slices Sorted and Elements hand out.
+func vScribble(s *vImpl) {
+	for _, sl := range [][]string{s.Sorted(), s.Elements()} {
+		for k := range sl {
+			sl[k] = "~scribbled"
+		}
+	}
+}
